@@ -558,7 +558,7 @@ func GenCase(prop string, seed uint64, thorough bool) *Case {
 			return genConcFault(prop, seed, g)
 		}
 	case "C20":
-		if r.p(0.4) {
+		if r.p(0.5) {
 			// merged writers: the leader's batch must come back unchanged
 			return genConc(prop, seed, g, thorough)
 		}
